@@ -94,7 +94,7 @@ static void case_raid(long idx, rsym *s, vrng *r, const char *lvl)
 	v_setcase(idx, "sym=%s level=%s vects=%d len=%d align=%d tag=%llx", s->name, lvl, vects, len, al, (unsigned long long) tag);
 	char key[200]; int rc = -99;
 	if (s->kind == R_XORGEN || s->kind == R_PQGEN) {
-		if (V_TRY(20)) { rc = s->fn(vects, len, arr); V_END; } else { fault(s, "gen"); goto out; }
+		if (V_TRY(20)) { rc = (int) V_ABI(s->fn, vects, len, arr); V_END; } else { fault(s, "gen"); goto out; }
 		s->calls++; s->resmask |= 1ull << ((len / mult) & 63);
 		if (len > 0) {
 			ref_pq(v, nsrc, len);
@@ -122,7 +122,7 @@ static void case_raid(long idx, rsym *s, vrng *r, const char *lvl)
 	} else {
 		/* check functions: build a consistent array from the reference, expect 0; then corrupt single bytes, expect non-zero */
 		if (len > 0) { ref_pq(v, nsrc, len); memcpy(v[nsrc], refP, len); if (npar == 2) memcpy(v[nsrc + 1], refQ, len); }
-		if (V_TRY(20)) { rc = s->fn(vects, len, arr); V_END; } else { fault(s, "check"); goto out; }
+		if (V_TRY(20)) { rc = (int) V_ABI(s->fn, vects, len, arr); V_END; } else { fault(s, "check"); goto out; }
 		s->calls++; s->resmask |= 1ull << ((len / mult) & 63);
 		if (len > 0 && rc != 0) { snprintf(key, sizeof key, "check-rejects-consistent:%s", s->name); v_viol(key, "returned %d on parity-consistent arrays", rc); }
 		if (len > 0) {
@@ -133,7 +133,7 @@ static void case_raid(long idx, rsym *s, vrng *r, const char *lvl)
 				uint8_t delta = (uint8_t) ((int[]){ 1, 0x80, 0xff, 0 }[vrn(r, 4)]); if (!delta) delta = (uint8_t) (1 + vrn(r, 255));
 				v[which][x] ^= delta;
 				int rc2 = -99;
-				if (V_TRY(20)) { rc2 = s->fn(vects, len, arr); V_END; } else { fault(s, "check(corrupt)"); goto out; }
+				if (V_TRY(20)) { rc2 = (int) V_ABI(s->fn, vects, len, arr); V_END; } else { fault(s, "check(corrupt)"); goto out; }
 				s->calls++;
 				if (which < nsrc) s->corrupt_src++; else if (which == nsrc) s->corrupt_p++; else s->corrupt_q++;
 				if (rc2 == 0) { snprintf(key, sizeof key, "check-misses-corruption:%s", s->name); v_viol(key, "vector %d (%s) byte %d of %d xor %02x not detected", which, which < nsrc ? "source" : which == nsrc ? "P" : "Q", x, len, delta); }
@@ -156,7 +156,7 @@ static void case_contract(long idx, rsym *s, vrng *r)
 	v_setcase(idx, "sym=%s out-of-contract vects=%d len=%d", s->name, vects, len);
 	int rc = -99; char key[200];
 	for (int i = 0; i < nv; i++) gs_release(s_vec[i]);      /* any access to a vector faults */
-	if (V_TRY(20)) { rc = s->fn(vects, len, arr); V_END; } else {
+	if (V_TRY(20)) { rc = (int) V_ABI(s->fn, vects, len, arr); V_END; } else {
 		for (int i = 0; i < nv; i++) gs_reacquire(s_vec[i]);
 		if (vects < 0) { v_describe_fault(); snprintf(key, sizeof key, "negative-vects-dereferenced:%s", v_fault_sym()); v_viol(key, "vects=%d is not refused: %s", vects, v_fault_txt); }
 		else fault(s, "out-of-contract vects");
